@@ -81,6 +81,13 @@ CFG_CHANGES = [
     # the perf master switch and the T1 caps it gates (a cached propagation must not survive a change of either)
     (["perf", "enabled"], [True, False]), (["perf", "enabled"], [True, False]),
     (["perf", "t1", "caps"], [{"frontier": 1}, {"visited": 1}, {"frontier": 2, "visited": 2}]), (["perf", "t1", "dedupe_window"], [1, 4]),
+    (["perf", "metrics", "report_memory"], [True, False]),
+    (["perf", "parallel"], [{"enabled": True, "t1": True, "t2": True, "max_workers": 3}, {"enabled": False}]),
+    (["t2", "quality"], [{"enabled": True, "lexical": {"enabled": True}, "fusion": {"enabled": True, "alpha_semantic": 0.0}, "normalizer": {"enabled": True}},
+                         {"enabled": True, "lexical": {"enabled": True}, "fusion": {"enabled": True, "alpha_semantic": 0.0}, "normalizer": {"enabled": False}},
+                         {"enabled": True, "lexical": {"enabled": True}, "fusion": {"enabled": True, "alpha_semantic": 0.0},
+                          "normalizer": {"enabled": True, "stemmer": "porter-lite", "min_token_len": 3}},
+                         {"enabled": False}]),
 ]
 
 
@@ -126,9 +133,19 @@ def generate(seed: int, tier: str) -> Dict[str, Any]:
     nid = 0
     two_states = r.chance(0.3)
     n_ops = r.randint(4, 12)
+    # "turn-cache focus": the turn-level version-keyed cache only survives from turn to turn while the version stands still
+    # (T4 kill switch engaged); one agent then asks the same text at the same logical time while the configuration changes
+    focus = r.chance(0.2)
+    if focus:
+        raw.setdefault("t4", {})["enabled"] = False
+        agents = agents[:1]
+        texts = texts[:1]
+        raw.setdefault("perf", {})["enabled"] = True
+    ms_only = r.chance(0.25)  # the logical clock handed over as ctx.now_ms only
     for _ in range(n_ops):
         if ops and ro.chance(0.45):
-            kind = ro.choice(["reweight", "rewire", "relabel", "add_edge", "add_node", "add_episode", "cfg", "clock", "state"])
+            kind = ro.choice(["cfg", "cfg", "cfg", "relabel", "add_episode", "reweight"]) if focus else \
+                ro.choice(["reweight", "rewire", "relabel", "add_edge", "add_node", "add_episode", "cfg", "clock", "state"])
             gid = ro.choice(gids)
             g = world["graphs"][gid]
             if kind == "reweight" and g["edges"]:
@@ -164,8 +181,10 @@ def generate(seed: int, tier: str) -> Dict[str, Any]:
             elif kind == "state" and two_states:
                 ops.append({"op": "switch_state", "kind": "state"})
             continue
-        now += ro.choice([0, 1, 1000, 3_600_000, 6 * 3_600_000, 12 * 3_600_000, 86_400_000])
+        now += ro.choice([0, 0, 0, 40 * 86_400_000]) if focus else ro.choice([0, 1, 1000, 3_600_000, 6 * 3_600_000, 12 * 3_600_000, 86_400_000])
         ops.append({"op": "turn", "agent": ro.choice(agents), "text": ro.choice(texts), "turn_id": turn, "now_ms": now})
+        if ms_only:
+            ops[-1]["with_now"] = False
         turn += 1
     return {"world": world, "world_b": world_b, "cfg": raw, "ops": ops}
 
